@@ -72,7 +72,7 @@ def build_lib(flavor="plain", defs=()):
     cpps, hdrs = repo_sources()
     flags = BASE_FLAGS + FLAVORS[flavor] + [f"-D{d}" for d in defs]
     key = _sha(cpps + hdrs, " ".join(flags))
-    tag = flavor + ("-" + "-".join(defs) if defs else "")
+    tag = flavor + ("-" + "-".join(sorted(defs)) if defs else "")
     root = BUILD / tag
     out = root / key
     root.mkdir(parents=True, exist_ok=True)
